@@ -149,6 +149,29 @@ PROPS = {
         level_note="trusts ASan/UBSan/LSan, libFuzzer, the replaced operator new in prop_C10.cpp",
         env={"ASAN_OPTIONS_EXTRA": "detect_leaks=0:alloc_dealloc_mismatch=0"},
     ),
+    "C11": dict(
+        bins={"main": dict(tc="gcc", src="prop_C11.cpp", variants=["plain", "ne"], shims=["plain", "ne"])},
+        parts=[
+            dict(name="report", workers={Q: 8, T: 8}, cases={Q: 200000, T: 3000000}),
+            dict(name="cboundary", workers={Q: 8, T: 8}, cases={Q: 100000, T: 1500000}),
+        ],
+        rule=("(report) 13 argument-validating entry points (ClipperD constructor + AddSubject/AddClip/AddOpenSubject, "
+              "BooleanOp/Union/InflatePaths/RectClip/RectClipLines on PathsD, BooleanOp into PolyTreeD, TrimCollinear(PathD), "
+              "ScalePath, MakePath, MakePathD) x precision -20..20 (biased to +-8/+-9) x coordinate magnitudes from 1e-12 to 100 "
+              "times the range boundary MAX_COORD/scale x zero/non-zero scale x odd/even value counts, each executed on a "
+              "build WITH exceptions (Clipper2Exception expected iff an argument is invalid) and on a -fno-exceptions build "
+              "linked into the same binary (error code bit and empty result expected); (cboundary) the eight exported "
+              "functions that validate enums/precision with cliptype 0..255, fillrule 0..255, precision -100..50 on "
+              "degenerate inputs: return value -5/-4/-3/0, output pointers untouched on rejection, NoClip gives empty "
+              "results, returned arrays well formed. The Execute-success clause on arbitrary inputs is additionally checked "
+              "inside every libFuzzer target of C10. Non-trivial = an invalid argument, a boundary precision (+-8) or a "
+              "coordinate above a quarter of the range"),
+        assumptions=["cases within a relative 1e-4 of the coordinate range boundary are not generated (expectation would depend on rounding)",
+                     "entry points without a documented range check (TrimCollinear(PathD), ScalePath) are probed only far inside the range"],
+        technique="property-based testing (rapidcheck): argument-space generation against a table of expected outcomes, two build variants (with / without C++ exceptions) in one binary",
+        level_text="Generated search over the argument space of every validating entry point on both exception configurations. Exploration only.",
+        level_note="trusts the expected-outcome table in prop_C11.cpp (derived from the property text), g++, rapidcheck",
+    ),
     "C02": dict(
         bins={"main": dict(tc="gcc", src="prop_C02.cpp", variants=["plain"])},
         parts=[
